@@ -158,13 +158,20 @@ def instance(job, cfg):
 def subprocess_instance(job, cfg, hashseed):
     env = dict(os.environ)
     env["PYTHONHASHSEED"] = str(hashseed)
-    r = subprocess.run([PY, "-m", "simverif.checks.c15"], input=json.dumps({"job": job, "cfg": cfg}),
-                       capture_output=True, text=True, env=env, timeout=300,
-                       cwd=os.path.dirname(os.path.dirname(os.path.dirname(os.path.abspath(__file__)))))
-    for line in r.stdout.splitlines():
-        if line.startswith("RESULT "):
-            return json.loads(line[7:])
-    raise RuntimeError("subprocess instance failed: " + r.stderr[-1500:])
+    err = ""
+    for _attempt in range(2):   # a fresh interpreter killed/timed out under load is not a verdict: retry once
+        try:
+            r = subprocess.run([PY, "-m", "simverif.checks.c15"], input=json.dumps({"job": job, "cfg": cfg}),
+                               capture_output=True, text=True, env=env, timeout=600,
+                               cwd=os.path.dirname(os.path.dirname(os.path.dirname(os.path.abspath(__file__)))))
+        except subprocess.TimeoutExpired as e:
+            err = "timeout: %r" % (e,)
+            continue
+        for line in r.stdout.splitlines():
+            if line.startswith("RESULT "):
+                return json.loads(line[7:])
+        err = "rc=%s stderr=%s" % (r.returncode, r.stderr[-1500:])
+    raise RuntimeError("subprocess instance failed: " + err)
 
 
 # ---------------------------------------------------------------------------
